@@ -1,6 +1,6 @@
 SPECIFICATION Spec
 CONSTANTS
-  Alphabet = {97, 32, 9, 31, 12288}
+  Alphabet = {97, 32, 9, 31}
   MaxLen = 3
   MaxLines = 2
   Widths = {0, 1, 2, 3, 4, 5}
